@@ -8,7 +8,13 @@ import (
 	"bytes"
 	"fmt"
 	"io"
+	"os"
+	"sync"
 	"testing"
+
+	"github.com/gogo/protobuf/proto"
+	pb "github.com/ipfs/boxo/ipld/unixfs/pb"
+	"github.com/ipfs/go-unixfsnode/data"
 
 	"github.com/ipfs/go-cid"
 	"github.com/ipfs/go-unixfsnode"
@@ -321,5 +327,236 @@ func TestC18_R_LargeFiles(t *testing.T) {
 	})
 	if err != nil {
 		t.Fatal(err)
+	}
+}
+
+// wideDir stores one plain-directory block (or, with ufsType < 0, a block without Data) of n links in LISTING order
+// file-1 .. file-n (not byte-sorted: file-10 comes before file-2 in sorted order), hand-encoded so that the stored order
+// survives; every entry points at its own small raw block. defects: positions whose link gets no name.
+func wideDir(st *Store, n int, nameless map[int]bool) (cid.Cid, []string, map[string]cid.Cid) {
+	var links []LinkInfo
+	var names []string
+	want := map[string]cid.Cid{}
+	for i := 1; i <= n; i++ {
+		name := fmt.Sprintf("file-%d", i)
+		c := sumRaw([]byte(name))
+		st.Put(c, []byte(name))
+		ts := uint64(len(name))
+		li := LinkInfo{Name: strp(name), Tsize: &ts, Cid: c}
+		if nameless[i] {
+			li.Name = nil
+			name = ""
+		}
+		links = append(links, li)
+		names = append(names, name)
+		if _, dup := want[name]; !dup {
+			want[name] = c
+		}
+	}
+	raw := encodePBRaw(links, []byte{0x08, 0x01}, true)
+	c, err := pbProto.Prefix.Sum(raw)
+	if err != nil {
+		panic(err)
+	}
+	st.Put(c, raw)
+	return c, names, want
+}
+
+// C15 / C03: plain directories of more than 1024 and more than 4096 links in listing (unsorted) order, some links
+// nameless: the map contract holds, and every entry is reachable by path.
+func TestC15_R_WideUnsortedDirectories(t *testing.T) {
+	for _, n := range []int{1025, 3000, 4096, 5000} {
+		for _, nameless := range []map[int]bool{nil, {n / 2: true}, {1: true, n: true}} {
+			st := NewStore()
+			root, _, _ := wideDir(st, n, nameless)
+			for _, reifier := range []string{"unixfs", "unixfs-preload"} {
+				rn, err := loadReified(st.LinkSystem(), root, reifier)
+				if err != nil {
+					t.Fatal(err)
+				}
+				if _, err := checkMapContract(rn, []string{"nope", "file-0", fmt.Sprintf("file-%d", n+1), "Links"}); err != nil {
+					t.Fatalf("C15: plain directory of %d links in listing order (nameless at %v) via %s: %v", n, nameless, reifier, err)
+				}
+			}
+		}
+	}
+}
+
+func TestC03_R_WideUnsortedDirectory(t *testing.T) {
+	for _, n := range []int{1024, 1025, 3000} {
+		st := NewStore()
+		sub, names, want := wideDir(st, n, nil)
+		// below a normal root, and as the traversal root itself
+		rootC, _, err := buildDir(st, []entrySpec{{Name: "big", Cid: sub, Tsize: 1}, entryFor("other", 1)})
+		if err != nil {
+			t.Fatal(err)
+		}
+		for i, name := range names {
+			if i > 16 && i < n-16 && i%53 != 0 {
+				continue
+			}
+			for _, via := range []struct {
+				root cid.Cid
+				path string
+			}{{rootC, "big/" + name}, {sub, name}} {
+				ms, _, err := c03Walk(st, via.root, via.path, "match", false)
+				if err != nil || len(ms) != 1 {
+					t.Fatalf("C03: path %q into a plain directory of %d entries stored in listing order matched %d nodes (err %v), want exactly the entry", via.path, n, len(ms), err)
+				}
+				if b, err := ms[0].Node.AsBytes(); err != nil || string(b) != name {
+					t.Fatalf("C03: path %q matched %q (err %v), entry links to %s", via.path, b, err, want[name])
+				}
+			}
+		}
+		if ms, _, err := c03Walk(st, sub, "file-0", "match", false); err != nil || len(ms) != 0 {
+			t.Fatalf("C03: path to a name that is not an entry matched %d nodes (err %v)", len(ms), err)
+		}
+	}
+}
+
+// C07: the file builder is also reached through the recursive importer (default chunker, default width): files on disk
+// of every size around the chunk size and up to a few MiB get the reference importer's link and size.
+func TestC07_R_ImportedFilesMatchReference(t *testing.T) {
+	for i, n := range []int{0, 1, 262143, 262144, 262145, 524288, 700000, 1048575, 1048576, 1048577, 3<<20 + 17} {
+		data := lcgBytes(n, byte(i+3), 0)
+		fn := &fsNode{Kind: fsFile, Data: data}
+		var got cid.Cid
+		var gsz uint64
+		err := withFSTree(fn, func(p string) {
+			l, sz, err := builder.BuildUnixFSRecursive(p, NewStore().LinkSystem())
+			if err != nil {
+				t.Fatalf("C07 import of a %d-byte file: %v", n, err)
+			}
+			got, gsz = cidOf(l), sz
+		})
+		if err != nil {
+			t.Fatal(err)
+		}
+		want, wsz, err := refImportFile(NewStore(), data, refFileOpts{Chunker: "size-262144", Width: 174, RawLeaves: true, CidV1: true})
+		if err != nil {
+			t.Fatal(err)
+		}
+		if got != want || gsz != wsz {
+			t.Fatalf("C07: a %d-byte file on disk imported by BuildUnixFSRecursive = %s / %d, reference importer %s / %d", n, got, gsz, want, wsz)
+		}
+	}
+}
+
+// C09: encoding is a function of the message: messages encoded by several goroutines at once come out as they do alone.
+func TestC09_R_ConcurrentEncode(t *testing.T) {
+	const G, N = 8, 3000
+	type job struct {
+		node data.UnixFSData
+		want []byte
+	}
+	jobs := make([]job, G)
+	for g := 0; g < G; g++ {
+		ty := pb.Data_File
+		fs := uint64(1000 + g)
+		sec := int64(1700000000 + g*12345)
+		ns := uint32(g * 111111)
+		mode := uint32(0o640 + g)
+		msg := &pb.Data{Type: &ty, Data: lcgBytes(10+g*7, byte(g), 0), Filesize: &fs, Blocksizes: []uint64{uint64(g), 1 << 33}, Mode: &mode, Mtime: &pb.IPFSTimestamp{Seconds: &sec, Nanos: &ns}}
+		raw, err := proto.Marshal(msg)
+		if err != nil {
+			t.Fatal(err)
+		}
+		n, err := data.DecodeUnixFSData(raw)
+		if err != nil {
+			t.Fatal(err)
+		}
+		jobs[g] = job{n, data.EncodeUnixFSData(n)}
+	}
+	var wg sync.WaitGroup
+	errs := make(chan string, G)
+	for g := 0; g < G; g++ {
+		wg.Add(1)
+		go func(g int) {
+			defer wg.Done()
+			for i := 0; i < N; i++ {
+				if got := data.EncodeUnixFSData(jobs[g].node); !bytes.Equal(got, jobs[g].want) {
+					errs <- fmt.Sprintf("goroutine %d, iteration %d: encoding %x, alone %x", g, i, got, jobs[g].want)
+					return
+				}
+				if i%64 == 0 {
+					if _, err := data.DecodeUnixFSData(jobs[g].want); err != nil {
+						errs <- fmt.Sprintf("goroutine %d: decode: %v", g, err)
+						return
+					}
+				}
+			}
+		}(g)
+	}
+	wg.Wait()
+	close(errs)
+	for e := range errs {
+		t.Fatalf("C09: %d goroutines encoding their own messages at the same time: %s", G, e)
+	}
+}
+
+// C11: sizes when a subtree holds 4 GiB (content sizes that no longer fit 32 bits): 4 GiB + 1 MiB + 5 bytes of zeros,
+// 1 MiB chunks, width 2 - the store de-duplicates, so the DAG is a few dozen blocks.
+func TestC11_R_Over4GiB(t *testing.T) {
+	n := int64(4)<<30 + 1<<20 + 5
+	st := NewStore()
+	root, size, err := buildFileR(st.LinkSystem(), &zeroReader{n: n}, "size-1048576", 2)
+	if err != nil {
+		t.Fatal(err)
+	}
+	want, err := st.CumulativeSize(root, nil)
+	if err != nil || want != size {
+		t.Fatalf("C11 >4GiB: builder returned size %d, true cumulative size %d (%v)", size, want, err)
+	}
+	if _, err := verifySizes(st, root, nil); err != nil {
+		t.Fatalf("C11 >4GiB: %v", err)
+	}
+}
+
+// C11: files whose length the filesystem does not report (procfs: stat says 0 bytes, reading yields content): the size
+// returned for the import is the size of the DAG that was stored, whatever stat said.
+func TestC11_R_PseudoFiles(t *testing.T) {
+	found := 0
+	for _, p := range []string{"/proc/version", "/proc/cpuinfo", "/proc/meminfo", "/proc/self/status", "/sys/kernel/mm/transparent_hugepage/enabled", "/proc/filesystems"} {
+		fi, err := os.Lstat(p)
+		if err != nil || !fi.Mode().IsRegular() {
+			continue
+		}
+		st := NewStore()
+		l, size, err := builder.BuildUnixFSRecursive(p, st.LinkSystem())
+		if err != nil {
+			continue // unreadable here: nothing to compare
+		}
+		found++
+		want, err := st.CumulativeSize(cidOf(l), nil)
+		if err != nil || want != size {
+			t.Fatalf("C11: import of %s (stat size %d) returned size %d, the stored DAG's cumulative size is %d (%v)", p, fi.Size(), size, want, err)
+		}
+		if _, err := verifySizes(st, cidOf(l), nil); err != nil {
+			t.Fatalf("C11: import of %s: %v", p, err)
+		}
+	}
+	t.Logf("%d pseudo-files imported", found)
+}
+
+// C01: a very deep, narrow file: width 2 and one-byte chunks give one dag-pb level per bit of the chunk count; 2^16+1
+// and 100000 chunks need 17 levels.
+func TestC01_R_DeepNarrowFile(t *testing.T) {
+	for _, n := range []int{65536, 65537, 100000} {
+		data := lcgBytes(n, 3, 0)
+		st := NewStore()
+		root, _, err := buildFile(st, data, "size-1", 2)
+		if err != nil {
+			t.Fatalf("C01 deep: build %d: %v", n, err)
+		}
+		for _, how := range []string{"Reify", "unixfs-preload"} {
+			rn, err := c01Open(st, root, how)
+			if err != nil {
+				t.Fatalf("C01 deep (%d chunks at width 2) via %s: %v", n, how, err)
+			}
+			b, err := rn.AsBytes()
+			if err != nil || !bytes.Equal(b, data) {
+				t.Fatalf("C01 deep (%d one-byte chunks at width 2) via %s: read %d bytes, err %v", n, how, len(b), err)
+			}
+		}
 	}
 }
